@@ -72,6 +72,15 @@ Example C20_sites_nonvacuous :
   Nat.leb 20 (count_kind is_ctx_use sites) = true /\ Nat.leb 10 (count_kind is_static sites) = true.
 Proof. exact sites_nonvacuous. Qed.
 
+Theorem C20_call_path_ok :
+  Nat.leb 8 (List.length call_path) = true /\ forallb (fun x : bool * lockid => negb (fst x)) call_path = true /\ find_stuck call_path = None.
+Proof. exact call_path_ok. Qed.
+
+Example C20_find_stuck_finds :
+  find_stuck [(false, 8); (true, 6); (false, 5); (false, 6)] = Some [0; 0; 0; 0; 0; 0; 0; 0; 0] /\
+  (exists sched, find_stuck2 [(false, 6); (false, 5); (false, 6)] [(true, 6)] = Some sched).
+Proof. exact find_stuck_finds. Qed.
+
 (* the theorems for the program the inventory describes: any number of concurrent calls, any schedule *)
 Theorem C20_code_no_deadlock : forall (Sg Pv : Type) (sg : Sg) (fps : list ((Sg -> Pv -> Pv) * Pv)) (sched : list tid),
   ~ stuck (run sched (init sg (callers fps))).
@@ -97,6 +106,8 @@ Print Assumptions C20_writer_deadlocks.
 Print Assumptions C20_stuck_forever.
 Print Assumptions C20_sites_ok.
 Print Assumptions C20_sites_nonvacuous.
+Print Assumptions C20_call_path_ok.
+Print Assumptions C20_find_stuck_finds.
 Print Assumptions C20_code_no_deadlock.
 Print Assumptions C20_code_isolation.
 Print Assumptions C20_code_locks_free.
